@@ -360,12 +360,42 @@ Qed.
 (* -------------------------------------------------------------------------------------------- *)
 (* The model's own outputs pass the check on every input in range. *)
 
-Theorem model_passes_check : forall c,
+Lemma fire_out_eqb_eq : forall a b, fire_out_eqb a b = true <-> a = b.
+Proof.
+  intros a b. split.
+  - intros H. unfold fire_out_eqb in H.
+    apply andb_true_iff in H as [H H6]. apply andb_true_iff in H as [H H5]. apply andb_true_iff in H as [H H4].
+    apply andb_true_iff in H as [H H3]. apply andb_true_iff in H as [H1 H2].
+    apply (option_eqb_spec _ (list_eqb_spec pairN_eqb pairN_eqb_spec')) in H1.
+    apply (option_eqb_spec Z.eqb Z.eqb_eq) in H2.
+    assert (Hrc : forall x y, root_call_eqb x y = true <-> x = y).
+    { intros [[l e] r] [[l' e'] r']. unfold root_call_eqb.
+      rewrite !andb_true_iff, !N.eqb_eq, (list_eqb_spec _ (option_eqb_spec N.eqb N.eqb_eq)).
+      split; [intros [[-> ->] ->]; reflexivity | intros H'; injection H' as -> -> ->; auto]. }
+    apply (option_eqb_spec _ Hrc) in H3.
+    apply (option_eqb_spec _ (list_eqb_spec msg_eqb msg_eqb_spec)) in H4.
+    apply (option_eqb_spec Z.eqb Z.eqb_eq) in H5.
+    apply (option_eqb_spec _ (list_eqb_spec contrib_eqb contrib_eqb_spec)) in H6.
+    destruct a, b; cbn in *; congruence.
+  - intros ->. rename b into y.
+    unfold fire_out_eqb. rewrite !andb_true_iff. repeat split.
+    * apply (option_eqb_spec _ (list_eqb_spec pairN_eqb pairN_eqb_spec')). reflexivity.
+    * apply (option_eqb_spec Z.eqb Z.eqb_eq). reflexivity.
+    * destruct (o_root_call y) as [[[l e] r]|]; cbn; [|reflexivity].
+      rewrite !N.eqb_refl, !andb_true_r. apply (list_eqb_spec _ (option_eqb_spec N.eqb N.eqb_eq)). reflexivity.
+    * apply (option_eqb_spec _ (list_eqb_spec msg_eqb msg_eqb_spec)). reflexivity.
+    * apply (option_eqb_spec Z.eqb Z.eqb_eq). reflexivity.
+    * apply (option_eqb_spec _ (list_eqb_spec contrib_eqb contrib_eqb_spec)). reflexivity.
+Qed.
+
+(* the part of the check that concerns a single call, its fired slots and a direct Aggregate; the
+   histories are added in Proofs/C15_Hist.v (model_passes_check) *)
+Theorem model_passes_check_base : forall c,
   chain_ok (c_par c) -> in_range (c_par c) (si_epoch (c_in c)) (si_cur (c_in c)) -> (0 <= slot_ns (c_par c))%Z ->
   (forall a o, c_agg c = Some (a, o) -> NoDup (agg_items a)) ->
-  agree c = true -> P_b c = true.
+  agree_base c = true -> P_b_base c = true.
 Proof.
-  intros c Hok Hr Hns Hagg Ha. unfold agree in Ha. unfold P_b.
+  intros c Hok Hr Hns Hagg Ha. unfold agree_base in Ha. unfold P_b_base.
   apply andb_true_iff in Ha as [Ha Hg]. apply andb_true_iff in Ha as [Hs Hf].
   assert (Hout : c_out c = schedule (c_par c) (c_in c)).
   { unfold sched_out_eqb in Hs. apply andb_true_iff in Hs as [Hs H3]. apply andb_true_iff in Hs as [H1 H2].
